@@ -1,6 +1,6 @@
 SPECIFICATION Spec
 CONSTANTS MaxDepth = 3
-  Families <- FamT_F2
+  Families <- FamAlter
   StoreByCopy = TRUE
   TailKeepsSets = TRUE
   SplitContinues = TRUE
@@ -8,6 +8,6 @@ CONSTANTS MaxDepth = 3
   SplitCachesExport = FALSE
   SrcFRepass = TRUE
   MFRunCopies = TRUE
-  AlterApplied = FALSE
-INVARIANT Emitted
+  AlterApplied = TRUE
+INVARIANT SeenIsExpected
 CHECK_DEADLOCK FALSE
